@@ -147,10 +147,28 @@ def check(fr, order):
             want = per[l]["cast"][1] if k == "cast" else before[l]
             if canon_series(out[l]) != want:
                 add("C08", "frame-cast-column-differs", "cast column %r differs from the single-Series cast" % (l,))
+                # the Series cast is the exact decoding (C06 oracle of the pandas runner), so the frame's column is not
+                add("C06", "frame:cast-column-not-the-decoding", "frame column %r is cast to other values / dtype than the same "
+                                                                 "column cast on its own (tz, dtype or values lost in the frame path)" % (l,))
                 break
+    small = len(df) <= 200          # the long frames exist for the sampling check; the rest would only cost time on them
+    # C01 on the frame: the type detected for every column contains that column, and none of its identity children in
+    # the typeset does
+    if small and res["detect"][0] == "ok":
+        for l in df.columns:
+            t = res["detect"][1].get(l)
+            if t is None:
+                continue
+            inn = outcome(lambda: bool(df[l] in t))
+            if inn != ["ok", True]:
+                add("C01", "frame:detected-type-does-not-contain", "frame column %r detected as %s, which does not contain it (%s)" % (l, t, inn))
+                continue
+            for child in ts.base_graph.successors(t):
+                if outcome(lambda: bool(df[l] in child)) == ["ok", True]:
+                    add("C01", "frame:not-most-specific:%s>%s" % (t, child), "frame column %r detected as %s although its identity child %s contains it" % (l, t, child))
+                    break
     # C03 / C04 on the frame: every cast column belongs to, and is detected as, the type inferred for it; inferring or
     # casting the cast frame again changes nothing
-    small = len(df) <= 200          # the long frames exist for the sampling check; the rest would only cost time on them
     if small and res["cast"][0] == "ok" and res["infer"][0] == "ok" and isinstance(res["cast"][1], pd.DataFrame) \
             and list(res["cast"][1].columns) == list(df.columns):
         out, inf = res["cast"][1], res["infer"][1]
